@@ -354,6 +354,42 @@ func genMultiFramework(plan *simrt.Source) *pkgSrc {
 	return p
 }
 
+// genShadowedBuiltin builds a pair of packages around one builtin name: the
+// first declares a package-level function of that name (in a file that sorts
+// after the one using it), the second — compiled in between, in the same
+// process — uses the real builtin. Whatever the compiler remembers about the
+// name from one compile must not leak into the next.
+var shadowable = []struct{ name, decl, use, builtinUse string }{
+	{"max", "func max(a, b float64) float64 {\n\treturn a\n}\n", "v := max(1, 2)\necho \"${v}\"\n", "echo max(1, 2)\n"},
+	{"min", "func min(a, b float64) float64 {\n\treturn b\n}\n", "v := min(1, 2)\necho \"${v}\"\n", "echo min(3, 4)\n"},
+	{"len", "func len(s string, extra int) int {\n\treturn extra\n}\n", "echo len(\"abc\", 7)\n", "echo len(\"abc\")\n"},
+	{"cap", "func cap(s string, extra int) int {\n\treturn extra\n}\n", "echo cap(\"abc\", 7)\n", "echo cap([]int{1})\n"},
+	{"close", "func close(ch chan int, why string) {\n}\n", "ch := make(chan int)\nclose(ch, \"done\")\n", "ch := make(chan int)\nclose(ch)\n"},
+	{"append", "func append(a int, b string) string {\n\treturn b\n}\n", "echo append(1, \"x\")\n", "s := append([]int{}, 1)\necho s\n"},
+	{"copy", "func copy(a string) string {\n\treturn a\n}\n", "echo copy(\"z\")\n", "d := make([]int, 1)\necho copy(d, []int{2})\n"},
+	{"delete", "func delete(a int) int {\n\treturn a\n}\n", "echo delete(3)\n", "m := {\"a\": 1}\ndelete(m, \"a\")\necho m\n"},
+	{"real", "func real(a string) string {\n\treturn a\n}\n", "echo real(\"r\")\n", "echo real(complex(1, 2))\n"},
+	{"imag", "func imag(a string) string {\n\treturn a\n}\n", "echo imag(\"i\")\n", "echo imag(complex(1, 2))\n"},
+	{"complex", "func complex(a string) string {\n\treturn a\n}\n", "echo complex(\"c\")\n", "echo complex(1, 2)\n"},
+	{"panic", "func panic(a, b int) int {\n\treturn a + b\n}\n", "echo panic(1, 2)\n", "if false {\n\tpanic(\"p\")\n}\n"},
+	{"print", "func print(a, b int) int {\n\treturn a + b\n}\n", "v := print(1, 2)\necho v\n", "print(\"p\")\n"},
+	{"new", "func New(a string) string {\n\treturn a\n}\n", "echo New(\"n\")\n", "p := new(int)\necho *p\n"},
+	{"make", "func Make(a string) string {\n\treturn a\n}\n", "echo Make(\"m\")\n", "echo make([]int, 2)\n"},
+}
+
+func genShadowedBuiltin(plan *simrt.Source) (pkg, noise *pkgSrc) {
+	sh := shadowable[plan.Draw(len(shadowable))]
+	pkg = &pkgSrc{name: "generated-shadows-" + sh.name, files: map[string]string{
+		"a_use.xgo":  sh.use,
+		"b_decl.xgo": sh.decl,
+	}}
+	if plan.Chance(300) {
+		pkg.files["c_more.go"] = "package main\n\nfunc More() int {\n\treturn 1\n}\n"
+	}
+	noise = &pkgSrc{name: "generated-uses-builtin-" + sh.name, files: map[string]string{"main.xgo": sh.builtinUse}}
+	return
+}
+
 // --- compile under a schedule -----------------------------------------------------------
 
 type env0 struct {
@@ -488,6 +524,9 @@ func (c08) NewRun(plan *simrt.Source, job *harn.Job) harn.Run {
 	r.siteSel = plan.Draw(5)
 	if plan.Chance(400) {
 		r.noise = genPackage(plan)
+	}
+	if plan.Chance(150) {
+		r.pkg, r.noise = genShadowedBuiltin(plan)
 	}
 	var names []string
 	for n := range r.pkg.files {
